@@ -47,7 +47,8 @@ thread_local! {
 }
 
 fn batch_variant(r: &mut Rng, base: &[usize]) -> (Vec<usize>, &'static str) {
-    match r.below(5) {
+    match r.below(6) {
+        5 => ([&[2, r.range(1, 2), r.range(2, 3)][..], base].concat(), "batch-NxMxK"),
         0 => (base.to_vec(), "unbatched"),
         1 => ([&[1][..], base].concat(), "batch-1"),
         2 | 3 => ([&[r.range(2, 4)][..], base].concat(), "batch-N"),
@@ -77,7 +78,7 @@ pub fn run_case(ctx: &mut Ctx, fam: &str, _k: u64, r: &mut Rng) {
             };
             let is_conv = matches!(l, LSpec::Conv { .. });
             let desc = format!("layer|{:?}|{:?}", l, in_dims);
-            ctx.case(&desc, bname == "batch-N" || bname == "batch-NxM");
+            ctx.case(&desc, bname == "batch-N" || bname == "batch-NxM" || bname == "batch-NxMxK");
             ctx.hist("cells", &format!("{}|{:?}|{}", if is_conv { "conv" } else { "dense" }, act, bname));
             if is_conv && bname != "unbatched" && bname != "batch-1" {
                 ctx.count("batched_conv_layers", 1);
@@ -294,7 +295,22 @@ pub fn run_case(ctx: &mut Ctx, fam: &str, _k: u64, r: &mut Rng) {
             let out: Vec<f64> = if ce { (0..n).map(|_| 0.125 * r.int(1, 8)).collect() } else { (0..n).map(|_| 0.25 * r.int(-12, 12)).collect() };
             // the target may have the output's shape or any shape broadcasting to it (a vector target next to a
             // [1,n] output of an unbatched dense layer, one target row shared by a batch, ...)
-            let tdims: Vec<usize> = if r.chance(1, 2) { dims.clone() } else { super::shapes::partner(r, &dims) };
+            // ... or a shape that broadcasts WITH it, each side stretching the other (an [n,1] output of a one-unit
+            // layer next to a flat [n] target gives an [n,n] cost array - C04's rule, whatever one thinks of the idiom)
+            let tdims: Vec<usize> = match r.below(5) {
+                0 | 1 => dims.clone(),
+                2 | 3 => super::shapes::partner(r, &dims),
+                _ => {
+                    let mut t: Vec<usize> = dims.iter().map(|x| if *x == 1 { r.range(2, 3) } else if r.chance(1, 2) { 1 } else { *x }).collect();
+                    if r.chance(1, 2) && t.len() > 1 {
+                        t.remove(0);
+                    }
+                    if dims.len() >= 2 && dims[dims.len() - 1] == 1 && r.chance(1, 2) {
+                        t = vec![dims[dims.len() - 2]];
+                    }
+                    t
+                }
+            };
             let tgt: Vec<f64> = (0..numel(&tdims)).map(|_| 0.25 * r.int(0, 4)).collect();
             let to: T<f64> = T::from_f64(&dims, &out);
             let tt: T<f64> = T::from_f64(&tdims, &tgt);
